@@ -34,3 +34,8 @@ impl Stats {
         self.distinct.insert(h);
     }
 }
+
+/// VH_PANIC=1 restores the default panic message (Args::parse silences it)
+pub fn debug_hooks() {
+    if std::env::var("VH_PANIC").is_ok() { let _ = std::panic::take_hook(); }
+}
